@@ -38,8 +38,8 @@ REPR_RULE = ("repr-differential: blocks of 1-7 finalized journal states over 3 a
 
 PROPS = {
     "C01": {
-        "harness": [e2e("mixed,lifecycle,code,invalid,precompile", 100, 3000), SCHED_CONF, WITNESS],
-        "rule": E2E_RULE + SCHED_CONF_RULE,
+        "harness": [e2e("mixed,lifecycle,code,invalid,precompile", 250, 3000), SCHED_CONF, REPR, WITNESS],
+        "rule": E2E_RULE + SCHED_CONF_RULE + "; " + REPR_RULE,
         "trusted_base": E2E_TRUST,
         "modelled": ["a transaction as a deterministic interaction tree over reads (Model/Block.lean); in-order semantics `ideal`; multi-version read resolution `view`"],
         "assumptions": ["monitored: an incarnation's result is a function of the values returned to it (determinism of revm)"],
@@ -80,7 +80,7 @@ PROPS = {
     },
     "C06": {
         "lean_modules": ["Props.C06"],
-        "harness": [e2e("mixed,lifecycle,code,invalid,precompile", 40, 600, configs="w1,w2,w4,seq,fallback,minpar,mineq", schedules=1, label="config-matrix")],
+        "harness": [e2e("mixed,lifecycle,code,invalid,precompile", 200, 3000, configs="w1,w2,w4,seq,fallback,minpar,mineq", schedules=1, label="config-matrix")],
         "rule": E2E_RULE + "; configurations: workers 1,2,4; min_parallel_txs 0, n, n+1; force_sequential; fallback_sequential() entry point — all compared with the same in-order oracle result",
         "trusted_base": E2E_TRUST,
         "modelled": ["path selection in parallel_execute_inner"],
@@ -120,11 +120,12 @@ PROPS = {
     },
     "C14": {
         "lean_modules": ["Props.C14"],
-        "harness": [],
-        "rule": "n/a (filled by harness runs)",
+        "harness": [{"sub": "once", "quick": {"cases": 400}, "thorough": {"cases": 20000}, "timeout": 3000}],
+        "rule": "each case = one scheduler over a generated block (0-8 txs; families mixed/conf/invalid/lifecycle; nonce check on or off so that a second application would really be applied; workers 1-3; parallel or sequential path) and 2-6 calls of execute / parallel_execute(Some(w)) / fallback_sequential issued (a) one after another, (b) from threads released together, (c) with late callers arriving while the first is inside the block (slowed database); oracle: exactly one call is elected, every other call returns the only-once error, and outcomes + state + bundle afterwards equal ONE in-order execution (stock revm); the observed results in completion order are replayed through RunOnce.step (call*, winner CAS, loser CASes, body) with the applied-count; distinct = distinct (block, mode, call list)",
         "trusted_base": COMMON_TRUST,
         "modelled": ["Scheduler::run_once election (src/scheduler/control.rs) as a CAS on `started`; the block body is one abstract step"],
-        "assumptions": ["compare_exchange on `started` is atomic", "every public entry point goes through run_once (checked structurally by the translator)"],
+        "assumptions": ["compare_exchange on `started` is atomic", "every public entry point goes through run_once (exercised: all three entry points in every position of the call sequence)"],
+        "partial": ["the CAS order of racing callers is not observed (no hook inside run_once): the replayed model run orders the winner first, which is the only order the model admits"],
         "explanation": "Theorems one_winner / returned_implies_one_winner / losers_touch_nothing / untouched_before_execute over all interleavings of any number of callers.",
     },
     "C15": {
@@ -153,11 +154,15 @@ PROPS = {
     },
     "C17": {
         "lean_modules": ["Props.C17"],
-        "harness": [],
-        "rule": "n/a (filled by harness runs)",
+        "harness": [
+            {"sub": "kernel-wait", "quick": {"cases": 800}, "thorough": {"cases": 40000}, "timeout": KERNEL_TIMEOUT},
+            e2e("conf,mixed,invalid", 60, 2500, schedules=4, label="stall-detection"),
+        ],
+        "rule": "kernel-wait: one waiter thread (register; loop wait_while(!ready) until the predicate was seen false) and 1-3 producer threads (scripts of set-condition-then-notify / bare notify, each ending with ready := true; notify) on the real WaitSlot under seeded random/PCT/sticky controller schedules with park/unpark emulated by the token contract and NO timeout; the totally ordered event trace (register, wait_check1/2 with the observed predicate value, wait_park, park-with-token, wake, p_set, notify, unpark) is replayed through WaitSlot.step: every event must be the enabled model step, observed predicate values must equal the model's, the waiter must finish; a waiter left parked with every other thread finished is reported by the controller as a stall; e2e (stall-detection): whole blocks on the real scheduler under controller schedules with emulated park and no timeout: a lost wakeup of the finality or commit coordinator is a controller deadlock (reported as stall = concrete failing schedule), besides the oracle comparison; " + E2E_RULE,
         "trusted_base": COMMON_TRUST,
         "modelled": ["WaitSlot::{register_current_thread, notify, wait_while} (src/scheduler/wait.rs); park/unpark by the token contract of std::thread; no timeout in the model"],
-        "assumptions": ["std::thread::park/unpark token semantics", "producers write the condition before notify (validate, finality loop, cancel: checked structurally by the translator)"],
+        "assumptions": ["std::thread::park/unpark token semantics", "producers write the condition before notify: part of the model (nPublish before nStep); the call sites in validate, the finality loop and cancel are exercised by the e2e stall detection, where a notify issued before its condition is published deadlocks the emulated park"],
+        "partial": ["the 8 s STALL_TIMEOUT safety net is deliberately absent from model and harness: the property is that it is never needed"],
         "explanation": "Theorems no_lost_wakeup and wakeup_within_two_steps over all interleavings of one waiter and any number of producers.",
     },
 }
